@@ -11,8 +11,8 @@ import (
 
 func init() {
 	register(&propDef{
-		ID: "C11",
-		Explain: "Decided for coalesce.Queue (structural necessary conditions): queue/coalesced are touched only under the embedded mutex; Insert refuses after close before touching the queue; the wake-up token is a non-blocking send issued after (never before) a successful insert into a channel of capacity >= 1, `closed` is unbuffered, never sent on and closed at most once under the lock; Next's blocking select waits on exactly ctx.Done, inserted and closed and returns ctx.Err on cancellation; closed is reported only when Len()==0 (drain-before-closed); representation-level order/count: a pending key is only incremented by 1, a new key is appended at the tail with count 0, Next returns queue[0] with the count looked up before its delete, advances by exactly one and deletes that key on every path.",
+		ID:       "C11",
+		Explain:  "Decided for coalesce.Queue (structural necessary conditions): queue/coalesced are touched only under the embedded mutex; Insert refuses after close before touching the queue; the wake-up token is a non-blocking send issued after (never before) a successful insert into a channel of capacity >= 1, `closed` is unbuffered, never sent on and closed at most once under the lock; Next's blocking select waits on exactly ctx.Done, inserted and closed and returns ctx.Err on cancellation; closed is reported only when Len()==0 (drain-before-closed); representation-level order/count: a pending key is only incremented by 1, a new key is appended at the tail with count 0, Next returns queue[0] with the count looked up before its delete, advances by exactly one and deletes that key on every path.",
 		NotCover: "conservation and order under all producer/consumer interleavings, fairness among consumers, absence of lost wake-ups as a liveness statement (only its structural preconditions are decided)",
 		Run:      runC11,
 	})
@@ -76,7 +76,9 @@ func runC11(c *Ctx) {
 				}
 				return false, false
 			},
-			Watch: func(ev *Ev) bool { return isIns(ev) || strings.HasPrefix(ev.Label, "select:") || strings.HasPrefix(ev.Label, "send:") },
+			Watch: func(ev *Ev) bool {
+				return isIns(ev) || strings.HasPrefix(ev.Label, "select:") || strings.HasPrefix(ev.Label, "send:")
+			},
 		}
 		e.Run(Insert)
 		c.Paths += len(e.Paths)
@@ -85,7 +87,9 @@ func runC11(c *Ctx) {
 		for i := range e.Paths {
 			p := &e.Paths[i]
 			ii := p.Index(0, isIns)
-			closedArm := p.Index(0, func(ev *Ev) bool { return ev.Label != "select:default" && strings.HasPrefix(ev.Label, "select:recv:") && chanIs(ev, fClosed) })
+			closedArm := p.Index(0, func(ev *Ev) bool {
+				return ev.Label != "select:default" && strings.HasPrefix(ev.Label, "select:recv:") && chanIs(ev, fClosed)
+			})
 			if closedArm >= 0 {
 				rc := retString(p.Rets)
 				ok := ii < 0 && len(p.Rets) == 2 && retClass(p.Rets[1]) == "global:errClosedQueue" && retClass(p.Rets[0]) == "const:false"
@@ -387,6 +391,20 @@ func runC11(c *Ctx) {
 			c.Floor(fmt.Sprintf("C11.repr/insert(pending=%v)", found), n, 1)
 		}
 	}
+	queueNextRepr(c, "C11.repr")
+}
+
+// queueNextRepr checks the representation-level dequeue discipline of coalesce.(*Queue).next
+// (shared by C11 and C08: a dequeued key must be forgotten so that a later update re-queues it).
+func queueNextRepr(c *Ctx, rule string) {
+	P := c.P
+	next := P.Method("coalesce", "Queue", "next")
+	fQueue := P.Field("coalesce", "Queue", "queue")
+	fCoal := P.Field("coalesce", "Queue", "coalesced")
+	if next == nil || fQueue == nil || fCoal == nil {
+		c.Unresolved(rule, "coalesce.(*Queue).next / Queue.queue / Queue.coalesced")
+		return
+	}
 	// ---- representation: next
 	{
 		c.Analysed(fnName(next))
@@ -405,7 +423,7 @@ func runC11(c *Ctx) {
 			valid := retClass(p.Rets[2])
 			if valid == "const:false" {
 				nEmpty++
-				c.Check(len(p.Trace) == 0 && retClass(p.Rets[0]) == "nil", "C11.repr", fnName(next), "empty queue => (nil,0,false), nothing written", P.Pos(next.Pos()), "path: "+p.String())
+				c.Check(len(p.Trace) == 0 && retClass(p.Rets[0]) == "nil", rule, fnName(next), "empty queue => (nil,0,false), nothing written", P.Pos(next.Pos()), "path: "+p.String())
 				continue
 			}
 			nAdv++
@@ -462,11 +480,11 @@ func runC11(c *Ctx) {
 				delOK = true
 			}
 			ok := valid == "const:true" && isHead && cntOK && delOK && adv == 1
-			c.Check(ok, "C11.repr", fnName(next), "dequeue head, count before delete, advance by one, forget the key", P.Pos(next.Pos()),
+			c.Check(ok, rule, fnName(next), "dequeue head, count before delete, advance by one, forget the key", P.Pos(next.Pos()),
 				fmt.Sprintf("head=%v count-lookup-before-delete=%v delete(coalesced,item)=%v advance=%d; path: %s", isHead, cntOK, delOK, adv, p.String()))
 		}
-		c.Floor("C11.repr/next-dequeue-paths", nAdv, 1)
-		c.Floor("C11.repr/next-empty-paths", nEmpty, 1)
+		c.Floor(rule+"/next-dequeue-paths", nAdv, 1)
+		c.Floor(rule+"/next-empty-paths", nEmpty, 1)
 	}
 }
 
